@@ -261,7 +261,11 @@ def check_spa_lists(rep, repo):
             s_, was_set = s_[2][0], True
         if s_[0] == 'setcomp':
             s_, was_set = ('comp', s_[1], s_[2]), True
-        if not was_set and s_[0] == 'comp' and len(s_[1]) == 1 and s_[1][0][0][3] == own and s_[1][0][1] != TRUE:
+        if not was_set and s_[0] == 'comp' and len(s_[1]) == 1 and s_[1][0][0][3][0] == 'call' and show(s_[1][0][0][3][1]).split('.')[-1] == 'groupby':
+            # sorted(key for key, group in groupby(...)): the grouping decides (case (e) below); sorting the keys afterwards does
+            # not merge groups that were not adjacent
+            c = s_
+        elif not was_set and s_[0] == 'comp' and len(s_[1]) == 1 and s_[1][0][0][3] == own and s_[1][0][1] != TRUE:
             # sorted([lookup(p) for p in own if <not seen before>]): the filter does the de-duplication - judged below, on the list
             c = s_
         elif not was_set and s_[0] == 'comp' and len(s_[1]) == 1 and s_[1][0][0][3] == own and s_[1][0][1] == TRUE and not contains(s_[2], lambda x: x[0] in ('carried', 'prefix')):
